@@ -339,15 +339,31 @@ def inline_unknown_helpers(trees: Dict[str, ast.Module], known: Optional[set] = 
             g = _single_exit(f)
             if g is not None and _inlinable(g):
                 cand[q] = g
+        # closures: a nested def (not a pinned one) bound once in its enclosing function; its free variables mean at the call
+        # what they mean in the expansion
+        closure_map: Dict[int, Dict[str, str]] = {}
+        for q, f in list(funcs.items()):
+            for name, x in _nested_defs(f).items():
+                qn = f"{q}.<locals>.{name}"
+                if qn in known:
+                    continue
+                g = _single_exit(x)
+                if g is not None and _inlinable(g):
+                    cand[qn] = g
+                    closure_map.setdefault(id(f), {})[name] = qn
         if not cand:
             break
         done = 0
+
+        current_caller: List[Optional[ast.FunctionDef]] = [None]
 
         def resolve(mod: str, cls: Optional[str], call: ast.Call):
             f = call.func
             if isinstance(f, ast.Attribute) and isinstance(f.value, ast.Name) and f.value.id == "self" and cls:
                 q = f"{mod}.{cls}.{f.attr}"
                 return (q, True) if q in cand else None
+            if isinstance(f, ast.Name) and f.id in closure_map.get(id(current_caller[0]), {}):
+                return closure_map[id(current_caller[0])][f.id], "closure"
             if isinstance(f, ast.Name):
                 q = f"{mod}.{f.id}"
                 if q in cand:
@@ -365,6 +381,7 @@ def inline_unknown_helpers(trees: Dict[str, ast.Module], known: Optional[set] = 
             nonlocal done
             out: List[ast.stmt] = []
             for s in body:
+                current_caller[0] = caller
                 for fld in ("body", "orelse", "finalbody"):
                     b = getattr(s, fld, None)
                     if isinstance(b, list) and b and isinstance(b[0], ast.stmt) and not isinstance(s, (ast.FunctionDef, ast.ClassDef)):
@@ -442,6 +459,15 @@ def inline_unknown_helpers(trees: Dict[str, ast.Module], known: Optional[set] = 
                     called.add(f.attr if isinstance(f, ast.Attribute) else (f.id if isinstance(f, ast.Name) else None))
                 elif isinstance(x, (ast.Name, ast.Attribute)) and isinstance(getattr(x, "ctx", None), ast.Load):
                     called.add(x.attr if isinstance(x, ast.Attribute) else x.id)  # passed around as a value
+        for t in trees.values():
+            for f in [x for x in ast.walk(t) if isinstance(x, ast.FunctionDef)]:
+                nd = _nested_defs(f)
+                if not nd:
+                    continue
+                used = {x.id for x in ast.walk(f) if isinstance(x, ast.Name) and isinstance(x.ctx, ast.Load)}
+                dead = {id(x) for name, x in nd.items() if name not in used and not any(q_.endswith(f"{f.name}.<locals>.{name}") for q_ in known)}
+                if dead:
+                    _drop_stmts(f, dead)
         for mod, t in trees.items():
             def alive(b, q):
                 return not (isinstance(b, ast.FunctionDef) and q not in known and b.name not in called and not b.name.startswith("__"))
@@ -453,6 +479,35 @@ def inline_unknown_helpers(trees: Dict[str, ast.Module], known: Optional[set] = 
         for mod in touched:
             renumber(trees[mod])
     return total
+
+
+def _nested_defs(f: ast.FunctionDef) -> Dict[str, ast.FunctionDef]:
+    """the functions defined directly inside f (at any block depth, not inside a further def), bound to a name f binds once"""
+    out: Dict[str, ast.FunctionDef] = {}
+    stores: Dict[str, int] = {}
+    stack = list(f.body)
+    while stack:
+        x = stack.pop()
+        if isinstance(x, (ast.FunctionDef, ast.AsyncFunctionDef, ast.ClassDef)):
+            stores[x.name] = stores.get(x.name, 0) + 1
+            if isinstance(x, ast.FunctionDef):
+                out[x.name] = x
+            continue
+        if isinstance(x, ast.Lambda):
+            continue
+        if isinstance(x, ast.Name) and isinstance(x.ctx, (ast.Store, ast.Del)):
+            stores[x.id] = stores.get(x.id, 0) + 1
+        stack.extend(ast.iter_child_nodes(x))
+    return {n: x for n, x in out.items() if stores.get(n) == 1}
+
+
+def _drop_stmts(f: ast.AST, dead: set) -> None:
+    for x in ast.walk(f):
+        for fld in ("body", "orelse", "finalbody"):
+            b = getattr(x, fld, None)
+            if isinstance(b, list) and any(id(y) in dead for y in b):
+                kept = [y for y in b if id(y) not in dead]
+                setattr(x, fld, kept or [ast.Pass()])
 
 
 def _as_load(e: ast.expr) -> ast.expr:
@@ -554,6 +609,194 @@ def propagate_attribute_aliases(trees: Dict[str, ast.Module]) -> int:
         for x in ast.walk(t):
             if isinstance(x, ast.FunctionDef):
                 do_function(x)
+    return done
+
+
+# ---------------------------------------------------------------------------
+# [helper(n) for n in xs]  /  out.append(helper(n))   are read as the loop and the statements they stand for
+# ---------------------------------------------------------------------------
+def _unknown_callee_names(trees: Dict[str, ast.Module], known: set) -> set:
+    """simple names of the functions (module level, methods, closures) that are not pinned ones"""
+    out = set()
+    for mod, t in trees.items():
+        def visit(f, q):
+            if q not in known:
+                out.add(f.name)
+            for name, x in _nested_defs(f).items():
+                visit(x, f"{q}.<locals>.{name}")
+        for b in t.body:
+            if isinstance(b, ast.FunctionDef):
+                visit(b, f"{mod}.{b.name}")
+            elif isinstance(b, ast.ClassDef):
+                for c in b.body:
+                    if isinstance(c, ast.FunctionDef):
+                        visit(c, f"{mod}.{b.name}.{c.name}")
+    return {n for n in out if not n.startswith("__")}
+
+
+def _pure_looking(e: ast.AST, allow: set) -> bool:
+    """nothing but names, constants, attribute chains, subscripts, arithmetic and comparisons (and the nodes in `allow`)"""
+    for x in ast.walk(e):
+        if id(x) in allow:
+            continue
+        if not isinstance(x, (ast.Name, ast.Constant, ast.Attribute, ast.Subscript, ast.Slice, ast.BinOp, ast.UnaryOp, ast.Compare, ast.BoolOp, ast.Tuple, ast.List,
+                              ast.operator, ast.unaryop, ast.cmpop, ast.boolop, ast.expr_context, ast.keyword)):
+            return False
+    return True
+
+
+def expand_helper_comprehensions(trees: Dict[str, ast.Module], known: Optional[set] = None) -> int:
+    """(a) a list comprehension with one generator whose element calls a helper that is not a pinned function, standing as the
+    value of `name = [..]`, `name = [literal, ..] + [..]`, `return [..]` or `return [literal, ..] + [..]`, becomes the loop
+    with an append it abbreviates (a comprehension variable that the function also uses elsewhere is renamed);
+    (b) such a call nested in an otherwise call-free statement (`out.append(helper(n))`, `x = a + helper(n)`) is bound to a
+    temporary first.  The helper inliner then shows the helper's statements in place.  Returns the number of rewrites."""
+    known = known_functions() if known is None else known
+    unknown = _unknown_callee_names(trees, known)
+    if not unknown:
+        return 0
+    done = 0
+    touched = set()
+    counter = [0]
+
+    def helper_calls(e: ast.AST) -> List[ast.Call]:
+        out = []
+        for x in ast.walk(e):
+            if isinstance(x, ast.Call):
+                f = x.func
+                if isinstance(f, ast.Name) and f.id in unknown:
+                    out.append(x)
+                elif isinstance(f, ast.Attribute) and isinstance(f.value, ast.Name) and f.attr in unknown:
+                    out.append(x)
+        return out
+
+    def comp_of(v):
+        """-> (prefix list literal or None, the comprehension) for the accepted value shapes"""
+        if isinstance(v, ast.ListComp):
+            return None, v
+        if isinstance(v, ast.BinOp) and isinstance(v.op, ast.Add) and isinstance(v.left, ast.List) and isinstance(v.right, ast.ListComp) \
+                and all(isinstance(e, ast.Constant) for e in v.left.elts):
+            return v.left, v.right
+        return None
+
+    def hoist(stmt: ast.stmt, fn_names: set) -> List[ast.stmt]:
+        """(b) for one simple statement"""
+        nonlocal done
+        if not isinstance(stmt, (ast.Assign, ast.AugAssign, ast.Return, ast.Expr)) or stmt.value is None:
+            return [stmt]
+        v = stmt.value
+        calls = helper_calls(v)
+        if not calls or any(c is v for c in calls):
+            return [stmt]
+        outer_ok = set()
+        if isinstance(stmt, ast.Expr) and isinstance(v, ast.Call) and isinstance(v.func, ast.Attribute) and v.func.attr == "append" and len(v.args) == 1 and not v.keywords:
+            outer_ok = {id(v)}
+        top = [c for c in calls if not any(c is not d and any(c is y for y in ast.walk(d)) for d in calls)]
+        allow = outer_ok | {id(y) for c in top for y in ast.walk(c)}
+        if not _pure_looking(v, allow) or any(not _pure_looking(a_, set()) for c in top for a_ in list(c.args) + [k.value for k in c.keywords]):
+            return [stmt]
+        pre = []
+        mp = {}
+        for c in top:
+            counter[0] += 1
+            nm = f"hv{counter[0]}_"
+            while nm in fn_names:
+                counter[0] += 1
+                nm = f"hv{counter[0]}_"
+            mp[id(c)] = nm
+            pre.append(ast.Assign(targets=[ast.Name(id=nm, ctx=ast.Store())], value=c))
+
+        class R(ast.NodeTransformer):
+            def visit_Call(self, n):
+                if id(n) in mp:
+                    return ast.Name(id=mp[id(n)], ctx=ast.Load())
+                return self.generic_visit(n)
+
+        stmt.value = R().visit(v)
+        new = pre + [stmt]
+        _relocate(pre, stmt)
+        for x in new:
+            ast.fix_missing_locations(x)
+        done += 1
+        return new
+
+    def rewrite(body: List[ast.stmt], fn: ast.FunctionDef, fn_names: set) -> List[ast.stmt]:
+        nonlocal done
+        out: List[ast.stmt] = []
+        for s_ in body:
+            if isinstance(s_, (ast.FunctionDef, ast.AsyncFunctionDef, ast.ClassDef)):
+                out.append(s_)
+                continue
+            for fld in ("body", "orelse", "finalbody"):
+                b = getattr(s_, fld, None)
+                if isinstance(b, list) and b and isinstance(b[0], ast.stmt):
+                    setattr(s_, fld, rewrite(b, fn, fn_names))
+            for h in getattr(s_, "handlers", []) or []:
+                h.body = rewrite(h.body, fn, fn_names)
+            shape = None
+            if isinstance(s_, ast.Return) and s_.value is not None:
+                shape = comp_of(s_.value)
+            elif isinstance(s_, ast.Assign) and len(s_.targets) == 1 and isinstance(s_.targets[0], ast.Name):
+                shape = comp_of(s_.value)
+            if shape is not None:
+                prefix, comp = shape
+                g = comp.generators[0]
+                tnames = [x.id for x in ast.walk(g.target) if isinstance(x, ast.Name)]
+                ok = len(comp.generators) == 1 and not g.is_async and helper_calls(comp.elt) and isinstance(g.target, (ast.Name, ast.Tuple)) \
+                    and not any(isinstance(x, (ast.ListComp, ast.SetComp, ast.DictComp, ast.GeneratorExp, ast.Lambda, ast.NamedExpr)) for x in ast.walk(comp) if x is not comp)
+                if isinstance(s_, ast.Assign) and ok:
+                    tn = s_.targets[0].id
+                    ok = not any(isinstance(x, ast.Name) and x.id == tn for x in ast.walk(comp))
+                if ok:
+                    # the comprehension's variables are its own: keep them apart from the function's
+                    outside = {x.id for x in ast.walk(fn) if isinstance(x, ast.Name) and not any(x is y for y in ast.walk(comp))} | {a.arg for a in fn.args.args + fn.args.kwonlyargs}
+                    ren = {}
+                    for n_ in tnames:
+                        if n_ in outside:
+                            counter[0] += 1
+                            ren[n_] = f"{n_}__lc{counter[0]}"
+                    sub = _Subst({}, ren)
+                    elt = sub.visit(copy.deepcopy(comp.elt))
+                    tgt = sub.visit(copy.deepcopy(g.target))
+                    ifs = [sub.visit(copy.deepcopy(c_)) for c_ in g.ifs]
+                    if isinstance(s_, ast.Assign):
+                        acc = s_.targets[0].id
+                    else:
+                        counter[0] += 1
+                        acc = f"lc{counter[0]}_"
+                    init = ast.Assign(targets=[ast.Name(id=acc, ctx=ast.Store())], value=copy.deepcopy(prefix) if prefix is not None else ast.List(elts=[], ctx=ast.Load()))
+                    app = ast.Expr(value=ast.Call(func=ast.Attribute(value=ast.Name(id=acc, ctx=ast.Load()), attr="append", ctx=ast.Load()), args=[elt], keywords=[]))
+                    inner: List[ast.stmt] = [app]
+                    if ifs:
+                        inner = [ast.If(test=ifs[0] if len(ifs) == 1 else ast.BoolOp(op=ast.And(), values=ifs), body=inner, orelse=[])]
+                    loop = ast.For(target=tgt, iter=copy.deepcopy(g.iter), body=inner, orelse=[])
+                    for x in ast.walk(loop.target):
+                        if hasattr(x, "ctx"):
+                            x.ctx = ast.Store()
+                    new: List[ast.stmt] = [init, loop]
+                    if isinstance(s_, ast.Return):
+                        new.append(ast.Return(value=ast.Name(id=acc, ctx=ast.Load())))
+                    _relocate(new, s_)
+                    for x in new:
+                        ast.fix_missing_locations(x)
+                    loop.body = [y for b_ in loop.body for y in (hoist(b_, fn_names) if not isinstance(b_, ast.If) else [b_])]
+                    if ifs:
+                        loop.body[0].body = [y for b_ in loop.body[0].body for y in hoist(b_, fn_names)]
+                    out.extend(new)
+                    done += 1
+                    continue
+            out.extend(hoist(s_, fn_names))
+        return out
+
+    for mod, t in trees.items():
+        before = done
+        for f in [x for x in ast.walk(t) if isinstance(x, ast.FunctionDef)]:
+            fn_names = {x.id for x in ast.walk(f) if isinstance(x, ast.Name)}
+            f.body = rewrite(f.body, f, fn_names)
+        if done != before:
+            touched.add(mod)
+    for mod in touched:
+        renumber(trees[mod])
     return done
 
 
@@ -664,6 +907,19 @@ def unroll_literal_loops(trees: Dict[str, ast.Module], max_rows: int = 32) -> in
                         used_attr = {_chain_text(z) for z in ast.walk(b_.value) if isinstance(z, ast.Attribute)}
                         if not (used & later_stores) and not (used_attr & later_attr):
                             tabs[b_.targets[0].id] = b_.value
+                # the same for a table bound inside a branch: nothing it names may be re-assigned anywhere in the function
+                all_stores = {z.id for z in ast.walk(x) if isinstance(z, ast.Name) and isinstance(z.ctx, (ast.Store, ast.Del))}
+                all_attr = {_chain_text(z) for z in ast.walk(x) if isinstance(z, ast.Attribute) and isinstance(z.ctx, (ast.Store, ast.Del))}
+                for b_ in ast.walk(x):
+                    if b_ in x.body or not (isinstance(b_, ast.Assign) and len(b_.targets) == 1 and isinstance(b_.targets[0], ast.Name) and isinstance(b_.value, (ast.Tuple, ast.List))):
+                        continue
+                    nm = b_.targets[0].id
+                    if stores.get(nm, 0) != 1 or nm in mutated or nm in tabs:
+                        continue
+                    used = {z.id for z in ast.walk(b_.value) if isinstance(z, ast.Name)}
+                    used_attr = {_chain_text(z) for z in ast.walk(b_.value) if isinstance(z, ast.Attribute)}
+                    if not (used & all_stores) and not (used_attr & all_attr):
+                        tabs[nm] = b_.value
                 loc["__tables__"] = tabs
                 x.body = rewrite(x.body, loc)
     for mod in touched:
